@@ -176,7 +176,9 @@ pub fn c11(opts: &Opts) -> Report {
     run_parallel(opts, "C11",
         "argument strings over the full Unicode range biased to backslashes, unbalanced braces, colons, pipes, newlines and multi-byte characters x the argument-taking operations (append, prepend, surround, quote, join, split, trim, pad) x top level and map body; the user-level identity is evaluated on the implementation and the parsed structure is compared with the model; distinct by (operation, context, argument)",
         opts.cases(5_000, 300_000), &|ctx, i| {
-            let s: String = match ctx.rng.below(4) {
+            let s: String = match ctx.rng.below(5) {
+                // texts whose escaped spelling puts an escaped special right before something a look-ahead of the grammar tests
+                4 => { let a = *ctx.rng.pick(&[":1", ":..", ":-2", "|upper", "|sort", "}|x", "\\}", "a:0b", "é:42", "::3", "|", ":", "\\:1", "{:..}"]); if ctx.rng.chance(1, 2) { a.to_string() } else { format!("{}{}", gens::word(&mut ctx.rng), a) } }
                 0 => gens::unicode_text(&mut ctx.rng, 8),
                 1 => { let n = 1 + ctx.rng.below(5); (0..n).map(|_| *ctx.rng.pick(&['\\', '{', '}', ':', '|', '\n', '\t', '\r', 'n', 't', 'é', '😀', '/', ' '])).collect() }
                 _ => gens::simple_arg(&mut ctx.rng),
@@ -185,7 +187,10 @@ pub fn c11(opts: &Opts) -> Report {
             let x = if ctx.rng.chance(1, 2) { "x".to_string() } else { gens::word(&mut ctx.rng) };
             let which = ctx.rng.below(8);
             let in_map = ctx.rng.chance(1, 2);
-            let wrap = |inner: String| if in_map { format!("{{split:\\n:..|map:{{{inner}}}}}") } else { format!("{{{inner}}}") };
+            // three contexts: a single block, inside a map body, and a block embedded between literals (the
+            // multi-template scanner instead of the single-block shortcut)
+            let mixed = !in_map && ctx.rng.chance(1, 3);
+            let wrap = |inner: String| if in_map { format!("{{split:\\n:..|map:{{{inner}}}}}") } else if mixed { format!("<{{{inner}}}>") } else { format!("{{{inner}}}") };
             // (template, expected result on x, expected op)
             let (text, expected, op): (String, Option<String>, Op) = match which {
                 0 => (wrap(format!("append:{e}")), Some(format!("{x}{s}")), Op::Append(s.clone())),
@@ -206,7 +211,8 @@ pub fn c11(opts: &Opts) -> Report {
             match real::parse(&text) {
                 real::Parsed::Ok(tpl) => {
                     let secs = sections_from_real(&tpl);
-                    let found = match secs.as_slice() { [Section::Sec(ops)] => {
+                    let only_sec: Vec<&Section> = secs.iter().filter(|s| matches!(s, Section::Sec(_))).collect();
+                    let found = match only_sec.as_slice() { [Section::Sec(ops)] => {
                         let body: Vec<Op> = if in_map { match ops.get(1) { Some(Op::Map(b)) => b.clone(), _ => vec![] } } else { ops.clone() };
                         body.contains(&op)
                     } _ => false };
@@ -216,7 +222,8 @@ pub fn c11(opts: &Opts) -> Report {
                         return;
                     }
                     // 2. the user-level identity
-                    if let Some(exp) = &expected {
+                    if let Some(exp0) = &expected {
+                        let exp = &(if mixed { format!("<{exp0}>") } else { exp0.clone() });
                         let got = real::format(&tpl, &x);
                         if got != Out::Ok(exp.clone()) {
                             viol(ctx, "property", format!("C11: format({text:?}, {x:?}) = {} but the argument is {s:?}, expected {exp:?}", got.show()),
